@@ -100,6 +100,9 @@ pub enum Op {
     StreamBefore(Vec<String>, CT),
     StreamAfter(Vec<String>, CT),
     StreamReplace(Vec<String>, CT),
+    StreamPrepend(Vec<String>, CT),
+    StreamAppend(Vec<String>, CT),
+    StreamSetInner(Vec<String>, CT),
     /// attach an end tag handler that performs these ops on the end tag
     OnEndTag(Vec<Op>),
     /// make the handler fail after performing preceding ops
@@ -360,6 +363,9 @@ fn apply_element(sh: &Sh, h: &str, el: &mut Element<'_, '_>, ops: &[Op]) -> HR {
             Op::StreamBefore(p, c) => el.streaming_before(stream(p, *c)),
             Op::StreamAfter(p, c) => el.streaming_after(stream(p, *c)),
             Op::StreamReplace(p, c) => el.streaming_replace(stream(p, *c)),
+            Op::StreamPrepend(p, c) => el.streaming_prepend(stream(p, *c)),
+            Op::StreamAppend(p, c) => el.streaming_append(stream(p, *c)),
+            Op::StreamSetInner(p, c) => el.streaming_set_inner_content(stream(p, *c)),
             Op::OnEndTag(eops) => {
                 let eops = eops.clone();
                 if let Some(hs) = el.end_tag_handlers() {
